@@ -296,3 +296,29 @@ def chain_with_tip(ctx, rule):
     ctx.check(ok and okroot and okc and okw, rule, 'chain-with-tip', f,
               'get_chain_with_tip: depth-first over all children; the named block\'s chain from the root and all of its children as successors',
               'get_chain_with_tip shape not recognised / changed (search ok=%s, root ok=%s, children ok=%s, wrapper ok=%s): %s' % (ok, okroot, okc, okw, describe_table(rows)))
+
+
+def tree_search(ctx, rule):
+    """C14/C10: where a block hangs in the tree — BlockTree::find_mut searches the whole tree depth-first and
+    reports the depth (root = 0, +1 per level); a parent on a side branch is found like one on the best chain"""
+    prog = ctx.prog
+    h = ctx.fn(rule, BT + 'BlockTree::find_mut::find_mut_helper')
+    w = ctx.fn(rule, BT + 'BlockTree::find_mut')
+    if not (h and w):
+        return
+    e = ex(prog, h)
+    rows = table(prog, h)
+    T = P.param('block_tree')
+    HIT = P.binop('Eq', P.call('*::block_hash', P.field('root', T)), P.param('blockhash'))
+    MISS = P.binop('Ne', P.call('*::block_hash', P.field('root', T)), P.param('blockhash'))
+    NEXT = P.call('*::next', P.has(P.call(['core::slice::iter_mut', 'core::slice::iter'], P.field('children', T))))
+    REC = P.call(BT + 'BlockTree::find_mut::find_mut_helper', P.has(P.downcast('Some', NEXT)), P.param('blockhash'), P.binop('Add', P.param('depth'), P.const(1)))
+    here = [r for r in rows if P.agg(variant='Some', _0=P.agg(_0=T, _1=P.param('depth')))(r[1]) and P.exactly(r[2], [HIT])]
+    none = [r for r in rows if P.agg(variant='None')(r[1]) and P.exactly(r[2], [MISS, P.is_(NEXT, 'None')])]
+    below = [r for r in rows if REC(r[1]) and P.exactly(r[2], [MISS, P.is_(NEXT, 'Some'), P.is_(REC, 'Some')])]
+    names = {(c.gshort or c.short or '?').rsplit('::', 1)[-1] for c in h.calls() if not c.cleanup}
+    ok = len(rows) == 3 and len(here) == 1 and len(none) == 1 and len(below) == 1 and not ({'skip', 'take', 'filter', 'rev', 'step_by', 'take_while', 'skip_while', 'last', 'first'} & names)
+    r = ex(prog, w).local(0)
+    okw = P.call(BT + 'BlockTree::find_mut::find_mut_helper', P.param('self'), P.param('blockhash'), P.const(0))(r)
+    ctx.check(ok and okw, rule, 'tree-search', h, 'find_mut: depth-first over all children from depth 0; the first subtree whose root has the hash, with its depth',
+              'find_mut shape not recognised / changed (helper ok=%s, wrapper ok=%s): %s' % (ok, okw, describe_table(rows)))
